@@ -21,5 +21,6 @@ def run(idx, rep, tier):
     aabbtree.r_bookkeep(idx, rep)
     aabbtree.r_unique(idx, rep)
     misc2.r_dupcond(idx, rep, [m.name for m in idx.lib_modules()], floor=3)
+    aabbtree.r_bruteforce(idx, rep)      # the brute-force broad phase is the reference the tree queries are interchangeable with
     generic2.r_indextruth(idx, rep, [m.name for m in idx.lib_modules()], floor=4)
     unpack.r_unpack(idx, rep, floor=4)
